@@ -169,6 +169,22 @@ func (eapAkaPrime *EapAkaPrime) Marshal() ([]byte, error) {
 		if err != nil {
 			return nil, errors.Wrapf(err, "EAP-AKA' Marshal(): write attribute/value failed")
 		}
+
+		// Zero padding up to the length the attribute declares (a multiple of 4 octets)
+		headerLen := EapAkaAttrTypeLen + EapAkaAttrLengthLen
+		if attr.attrType != AT_KDF {
+			headerLen += EapAkaAttrReservedLen
+		}
+		paddingLen := int(attr.length)*4 - headerLen - len(attr.value)
+		if paddingLen < 0 {
+			return nil, errors.Errorf("EAP-AKA' Marshal(): %s value exceeds the attribute length", attr.attrType)
+		}
+		if paddingLen > 0 {
+			err = binary.Write(buffer, binary.BigEndian, make([]byte, paddingLen))
+			if err != nil {
+				return nil, errors.Wrapf(err, "EAP-AKA' Marshal(): write attribute/padding failed")
+			}
+		}
 	}
 
 	return buffer.Bytes(), nil
@@ -300,7 +316,7 @@ func (eapAkaPrime *EapAkaPrime) Unmarshal(rawData []byte) error {
 			attr.reserved = valBitsLen
 
 			valBytesLen := valBitsLen / 8
-			totalLen := uint16(attr.length * 4)
+			totalLen := uint16(attr.length) * 4
 			paddingLen := totalLen - valBytesLen - EapAkaAttrTypeLen - EapAkaAttrLengthLen - EapAkaAttrReservedLen
 
 			attr.value = make([]byte, valBytesLen)
@@ -509,9 +525,8 @@ func (attr *EapAkaPrimeAttr) setAttr(attrType EapAkaPrimeAttrType, value []byte)
 		attr.reserved = uint16(valBitsLen) // The unit of reserved is bit
 		attr.length = uint8((totalLen + paddingBytes) / 4)
 
-		// Create value slice with padding
-		paddedLen := valBytesLen + paddingBytes
-		attr.value = make([]byte, paddedLen)
+		// The value is kept as given; Marshal() appends the padding
+		attr.value = make([]byte, valBytesLen)
 		copy(attr.value, value)
 	case AT_KDF:
 		// RFC 5448:
